@@ -40,10 +40,13 @@ Small == {Null, B(TRUE), UI(0), UI(200), UI(300), UL(0), UL(9), [t |-> "int", x 
           [t |-> "ubyte", x |-> <<200>>], [t |-> "double", x |-> <<127,248,0,0,0,0,0,1>>], [t |-> "char", x |-> <<0,1,244,0>>],
           TS(5), [t |-> "uuid", x |-> Rep(7, 16)], Str(<<>>), Str(<<195,169>>), Str(Rep(97, 256)), Sym(<<97,58,98>>), Bin(<<0,255>>)}
 Seqs(S, n) == UNION { [1..k -> S] : k \in 0..n }
+\* compound bodies on both sides of the 8-bit / 32-bit size boundary (items total 253 .. 256 bytes)
 Lists1 == { L(s) : s \in Seqs(Small, 2) } \cup { L(Rep(UI(1), 255)), L(Rep(Null, 256)), L(Rep(Str(<<97>>), 127)), L(Rep(Str(<<97>>), 128)) }
+          \cup { L(<<Bin(Rep(9, n))>>) : n \in 250..254 } \cup { L(<<UI(1), Bin(Rep(9, n))>>) : n \in 249..252 }
 MapKeys == {Sym(<<97>>), Str(<<107>>), TS(5), Null, UI(1), UL(300), Bin(<<1>>), [t |-> "uuid", x |-> Rep(7, 16)], [t |-> "char", x |-> <<0,0,0,65>>]}
 Maps1 == { M(<<k, v>>) : k \in MapKeys, v \in Small } \cup { M(<<>>), M(<<Sym(<<97>>), UI(1), Sym(<<98>>), Str(<<120>>), TS(5), [t |-> "long", x |-> Z(7) \o <<7>>]>>) }
            \cup { M(<<TS(5), UI(1), Str(<<107>>), [t |-> "long", x |-> Z(7) \o <<7>>]>>) }
+           \cup { M(<<Sym(<<107>>), Bin(Rep(9, n))>>) : n \in 247..252 } \cup { M(<<Str(Rep(107, n)), Null>>) : n \in 249..253 }
 
 DescCtor == [code |-> 0, d |-> UL(5), inner |-> [code |-> 113]]
 ArrCtors == { [code |-> 64], [code |-> 86], [code |-> 65], [code |-> 112], [code |-> 82], [code |-> 67], [code |-> 177], [code |-> 161], [code |-> 179], [code |-> 163],
@@ -77,6 +80,8 @@ Arrays == (UNION { { [t |-> "array", c |-> cc, x |-> s] : s \in Seqs(ElemOf(cc),
                  [t |-> "array", c |-> [code |-> 65], x |-> Rep(B(TRUE), 4)], [t |-> "array", c |-> [code |-> 67], x |-> Rep(UI(0), 5)],
                  [t |-> "array", c |-> [code |-> 82], x |-> Rep(UI(3), 255)], [t |-> "array", c |-> [code |-> 82], x |-> Rep(UI(3), 256)],
                  [t |-> "array", c |-> [code |-> 163], x |-> Rep(Sym(<<97>>), 126)], [t |-> "array", c |-> [code |-> 163], x |-> Rep(Sym(<<97>>), 127)] }
+          \cup { [t |-> "array", c |-> [code |-> 80], x |-> Rep([t |-> "ubyte", x |-> <<7>>], n)] : n \in 251..254 }
+          \cup { [t |-> "array", c |-> [code |-> 163], x |-> Rep(Sym(<<97, 98>>), n)] : n \in 49..52 }
 Described == { [t |-> "described", d |-> d, x |-> v] : d \in {UL(20), UL(70000), Sym(<<120,58,121>>)}, v \in Small \cup {L(<<>>), L(<<UI(1)>>)} }
 Level1 == Scalars \cup Lists1 \cup Maps1 \cup Arrays \cup Described
 Nested2 == { L(<<a, b>>) : a \in Arrays \cup Described \cup {M(<<Sym(<<97>>), UI(1)>>), L(<<L(<<>>)>>)}, b \in {Str(<<97>>), Null} }
@@ -123,6 +128,9 @@ SelfTyped == z.k = "typed" => \A form \in Forms(z.c, z.f), m \in Modes :
                 LET r == Dec(Enc(form, m)) IN r.ok /\ r.n = Len(Enc(form, m)) /\ Norm(r.v) = Norm(Desc(z.c, L(z.f)))
 SelfMsg == z.k = "message" => \A m \in Modes : LET r == DecMany(MsgEnc(z.s, m), 1, <<>>) IN r.ok /\ r.v = z.s
 
+\* the schema itself, for the driver's field-position projection (names and order come from the specification)
+EmitSchema == z.k # "start" \/ PrintT(<<"SCHEMA", ToJson([c \in DOMAIN Schema |-> [name |-> Schema[c].name,
+                  f |-> [i \in DOMAIN Schema[c].f |-> [n |-> Schema[c].f[i].n, hasdef |-> Schema[c].f[i].def.t # "nodef", mult |-> Schema[c].f[i].mult]]]])>>)
 Emit == CASE z.k = "value" -> PrintT(<<"CASE", ToJson([k |-> "value", v |-> z.v, encs |-> [i \in 1..4 |-> Enc(z.v, ModeSeq[i])]])>>)
           [] z.k = "typed" -> PrintT(<<"CASE", ToJson([k |-> "typed", ty |-> Schema[z.c].name, v |-> Desc(z.c, L(z.f)), encs |-> TypedEncs(z.c, z.f)])>>)
           [] z.k = "message" -> PrintT(<<"CASE", ToJson([k |-> "message", v |-> L(z.s), encs |-> [i \in 1..4 |-> MsgEnc(z.s, ModeSeq[i])]])>>)
